@@ -351,7 +351,8 @@ def generate(cls, rng):
                          k=rng.randrange(0, 30),
                          exc=rng.choice(["OSError", "KeyError",
                                          "RuntimeError", "ValueError",
-                                         "UnicodeDecodeError"]))]
+                                         "UnicodeDecodeError",
+                                         "BlockingIOError"]))]
             ops.append(c)
         return dict(init=init, ops=ops, repeat_seed=rng.getrandbits(30))
     # threads
@@ -422,6 +423,10 @@ class InjectedStreamError(object):
         if name == "UnicodeDecodeError":
             return UnicodeDecodeError("utf-8", b"\xff", 0, 1,
                                       InjectedStreamError.MARK)
+        if name == "BlockingIOError":
+            # a non-blocking stream that has nothing to deliver right now
+            import errno
+            return BlockingIOError(errno.EAGAIN, InjectedStreamError.MARK)
         cls = dict(OSError=OSError, KeyError=KeyError,
                    RuntimeError=RuntimeError, ValueError=ValueError)[name]
         return cls(InjectedStreamError.MARK)
@@ -880,10 +885,18 @@ def execute(cls, scenario, ctx):
             fexc = None
             if op[2][0] == "faultystream" and op[2][2]["kind"] == "raise_at":
                 fexc = op[2][2]["exc"]
+            fired0 = ctx.faults.get("stream_raise", 0)
             out = run_call(env, ctx, op, "first", fexc)
             if out is None:
                 continue
             ctx.checks += 1
+            if ctx.faults.get("stream_raise", 0) > fired0 and \
+                    out[0] in ("dt", "dt+tokens"):
+                # the stream failed in the middle of the text and a datetime
+                # came back all the same: built from a prefix of the input
+                ctx.violation("C14.stream_error_swallowed",
+                              dict(call=short(op), outcome=out[:3],
+                                   fault=op[2][2]))
             classify(ctx, op, out, text_len(op), fexc)
             ctx.event("call", short(op), out[:3])
             if any(ord(c) > 127 and c.isdigit() for c in
